@@ -35,6 +35,9 @@ ASSUMPTIONS = ['the vle / lle wrappers are driven with water/alcohol(/octanol) f
                'the whole-outlet K check allows the 1e-6 resolution of the phase fraction (bracket width of the library\'s solver) carried through the harness\' own Rachford-Rice model',
                'call histories: partition is not called while an outlet is a MultiStream (it writes through .mol / .imol[IDs] of single-phase outlets); an outlet holding glucose in a gas phase is not recycled as an inlet (no gas-phase enthalpy model for it); '
                'an InfeasibleRegion of mix_and_split_with_moisture_content ends the history without a judgement (whether a refusal is warranted is judged by the single-call cases); a MultiStream outlet of phase_split may file a liquid phase under its own liquid label (l / L)',
+               'call histories: a mix_and_split / mix_and_split_with_moisture_content call whose top outlet is a single-phase gas Stream while the inlets bring glucose asks the data package for the gas enthalpy of glucose (there is none): '
+               'such calls are judged when they return; a raise that carries the TypeError of Gas_Enthalpy_Ref_Solid on its chain is counted (history:mix/glucose-into-gas-outlet/raised), not judged; '
+               'a flashed inlet that Stream.vle(V, P) cannot prepare (FloatingPointError from inside DewPoint.solve_Tx: recorded finding) ends the history under its own key',
                "material_balance(balance='composition') is not judged: it is an iteration to a loose tolerance on compositions, not the statement's 'inlets minus outlets vanish'"]
 IDS = ('Water', 'Ethanol', 'Octanol', 'Methanol', 'O2', 'Glucose')
 
@@ -55,7 +58,9 @@ def required(tier):
             'history:phase_split>=300', 'history:phase_split/multistream-outlets>=150', 'history:phase_split/reused-outlets-holding-content>=200', 'history:phase_split/empty-phase>=100',
             'history:phase_split/feed-imol>=8', 'history:phase_split/feed-empty>=5', 'history:phase_split/feed-copy_like>=8', 'history:phase_split/feed-proxy>=8', 'history:phase_split/feed-rephase>=8',
             'history:partition/reused-outlets-holding-content>=100', 'history:partition/non-liquid-outlet>=40', 'history:partition/K-ratio>=40',
-            'history:vle/multistream-outlets>=60', 'history:vle/reused-outlets-holding-content>=80']
+            'history:vle/multistream-outlets>=60', 'history:vle/reused-outlets-holding-content>=80',
+            # input classes that recorded mechanisms are counted against (rate_per of the known findings) / that a not-judged data gap is recognised in
+            'vle:dew-flash/ternary>=100', 'vle:dew-flash/binary>=60', 'history:flash-inlet/dew-flash/ternary>=30', 'history:mix/glucose-into-gas-outlet>=100']
 
 
 def arr(s): return s.mol.to_array() if hasattr(s.mol, 'to_array') else np.asarray(s.mol, float)
@@ -195,6 +200,47 @@ def xy_lever(th, feed, spec):
         dp = s.dew_point_at_P(spec['P']) if 'P' in spec else s.dew_point_at_T(spec['T'])
         x_, y_ = float(dp.x[dp.IDs.index('Water')]), w
     return (z - x_) / (y_ - x_) if y_ != x_ else float('inf')
+
+
+def volatile_class(flows):
+    """input class of a flash feed: how many of the condensable volatile chemicals (water, ethanol, methanol) flow"""
+    n = sum(1 for i in ('Water', 'Ethanol', 'Methanol') if flows[IDS.index(i)] > 0)
+    return {3: 'ternary', 2: 'binary'}.get(n, 'single')
+
+
+def dew_bounded(spec):
+    """the flash takes its temperature bracket from DewPoint.solve_Tx: pressure given with a vapour fraction or a duty"""
+    return 'P' in spec and ('V' in spec or 'Q' in spec)
+
+
+def dew_solver_failure(e):
+    """the recorded mechanism (see known_findings: dew-solver): a FloatingPointError raised from inside DewPoint.solve_Tx - its unbounded secant left the temperature domain
+    and the activity model divided by zero / produced an invalid value there. Recognised from the library's own frames (the raise passes through solve_Tx of dew_point.py),
+    not from the message."""
+    if not isinstance(e, FloatingPointError): return False
+    tb = e.__traceback__
+    while tb is not None:
+        co = tb.tb_frame.f_code
+        if co.co_name == 'solve_Tx' and co.co_filename.replace('\\', '/').endswith('equilibrium/dew_point.py'): return True
+        tb = tb.tb_next
+    return False
+
+
+def gas_enthalpy_data_gap(e):
+    """the raise is (or was raised while handling) the TypeError of free_energy.Gas_Enthalpy_Ref_Solid: the enthalpy of a solid-reference chemical (glucose) was asked for in a
+    gas phase, for which the data package has no heat of vaporisation / gas heat capacity (documented data gap). Stream.H / mix_from answer it by trying other phases from the
+    stream's current temperature; what that attempt raises hangs on this TypeError through __context__."""
+    seen = 0
+    while e is not None and seen < 12:
+        if isinstance(e, TypeError) and exc_key(e) == 'TypeError@Gas_Enthalpy_Ref_Solid': return True
+        e = e.__context__; seen += 1
+    return False
+
+
+class InletNotBuilt(Exception):
+    """an inlet of a history could not be prepared (Stream.vle of the flashed inlet raised): there is no input to judge a helper on"""
+    def __init__(self, cause, pcls, fcls):
+        super().__init__(str(cause)); self.cause = cause; self.pcls = pcls; self.fcls = fcls
 
 
 def balance(rec, clause, tag, ins, outs, what):
@@ -521,6 +567,8 @@ def run_case(case, rec):
                 vcls = ('x-or-y' if ('x' in sp_ or 'y' in sp_) else 'QP' if 'Q' in sp_ else 'VT' if ('V' in sp_ and 'T' in sp_) else
                         ('VP/edge' if sp_['V'] in (0.0, 1.0) else 'VP') if 'V' in sp_ else ('TP' if 350 <= sp_['T'] <= 370 else 'TP/far'))
                 rec.hit(f'vle:cases/{vcls}')
+                fcls = volatile_class(case['feed'])
+                if dew_bounded(sp_): rec.hit(f'vle:dew-flash/{fcls}')          # input class of the recorded dew-solver finding (single calls and histories together)
                 try:
                     sep.vle(feed, vap, liq, **spec)
                 except Exception as e:
@@ -541,7 +589,9 @@ def run_case(case, rec):
                             rec.hit('vle:refusal-warranted/QP'); rec.refuse('vle raised: RuntimeError'); return
                         rec.check(False, 'vle-wrapper', 'spurious-refusal/QP', f'separations.vle raised RuntimeError ({str(e)[:80]}) for a duty of {sp_["Q"]} kJ/hr on a feed of heat capacity <= {cap} kJ/hr/K (the outlet temperature stays above 250 K)')
                         return
-                    rec.check(False, 'vle-wrapper', f'raised/{vcls}/{exc_key(e)}', f'separations.vle({sp_}) raised {type(e).__name__}: {str(e)[:120]} (no refusal is documented for this specification)')
+                    # a raise from inside the dew-temperature solver of a pressure-specified flash carries the input class of the feed (recorded mechanism; still a violation)
+                    mech = f'{vcls.split("/")[0]}/{fcls}/dew-solver' if (dew_bounded(sp_) and dew_solver_failure(e)) else vcls
+                    rec.check(False, 'vle-wrapper', f'raised/{mech}/{exc_key(e)}', f'separations.vle({sp_}) on a {fcls} water / ethanol / methanol feed {case["feed"]} raised {type(e).__name__}: {str(e)[:120]} (no refusal is documented for this specification)')
                     return
                 rec.hit(f'vle:judged/{vcls}')
                 balance(rec, 'vle-wrapper', tag, [fb], [arr(vap), arr(liq)], 'separations.vle')
@@ -705,7 +755,15 @@ def run_history(case, rec, th, ids):
         if k == 'fresh': return mk(th, [0.0] * n), np.zeros(n)
         if k == 'flash':
             s_ = mk(th, spec['flows'], 'l', T=340.)
-            s_.vle(**spec['spec'])                                         # a MultiStream now; far from saturation one of its phases holds nothing
+            fcls = volatile_class(spec['flows'])
+            if dew_bounded(spec['spec']): rec.hit(f'history:flash-inlet/dew-flash/{fcls}')
+            try:
+                s_.vle(**spec['spec'])                                     # a MultiStream now; far from saturation one of its phases holds nothing
+            except FloatingPointError as e:
+                # preparing the inlet is not a call of a helper under test: the recorded dew-solver mechanism is filed under its own key with the input class,
+                # anything else stays an error of the history
+                if dew_bounded(spec['spec']) and dew_solver_failure(e): raise InletNotBuilt(e, 'VP', fcls)
+                raise
             return s_, np.array(spec['flows'], float)
         if len(k) == 1: return mk(th, spec['rows'][0], k), np.array(spec['rows'][0], float)
         m_ = tmo.MultiStream(None, phases=tuple(k), thermo=th)
@@ -737,7 +795,12 @@ def run_history(case, rec, th, ids):
         if ci and held: rec.hit(f'history:{op}/reused-outlets-holding-content')
         if isms(top) or isms(bot): rec.hit(f'history:{op}/multistream-outlets')
         if op in ('mix_and_split', 'mixmoist'):
-            built = [build(sp_) for sp_ in call['ins']]
+            try:
+                built = [build(sp_) for sp_ in call['ins']]
+            except InletNotBuilt as nb:
+                rec.exception(f'history-setup/flashed-inlet/{nb.pcls}/{nb.fcls}/dew-solver', nb.cause,
+                              what=f'Stream.vle(V, P) preparing a flashed inlet (a {nb.fcls} water / ethanol / methanol feed at 340 K) of call {ci + 1} of a history raised {type(nb.cause).__name__}: {str(nb.cause)[:120]}')
+                return
             ins = [b_[0] for b_ in built]; before = [b_[1] for b_ in built]
             rtag = ''
             # an outlet that an earlier helper left holding glucose in a gas phase is not recycled: there is no gas-phase enthalpy model for the solid-reference
@@ -764,12 +827,25 @@ def run_history(case, rec, th, ids):
             split = np.array(call['split']) if isinstance(call['split'], list) else call['split']
             tag = f'history/{otag}/{itag}{rtag}'
             total = sum(before)
+            # input class 'glucose into a gas outlet': the top outlet is a single-phase GAS Stream (left so by an earlier vle / phase_split on these outlets) and the inlets
+            # bring glucose. Both helpers mix into the top outlet in ITS phase (top.mix_from(ins)), which asks for the gas enthalpy of glucose: the data package has none
+            # (documented data gap, as for glucose in a gas row of an inlet, which the generator never writes). The library tries other phases from the outlet's current
+            # temperature and usually returns (judged as any other call); when that attempt raises too, the call is not judged. Recognised from the inputs (outlet kind and
+            # phase, glucose among the inlets) AND the library's own TypeError of Gas_Enthalpy_Ref_Solid on the chain of the raise - nothing else is excused
+            gap_class = (not isms(top)) and top.phase == 'g' and bool(total[G_] > 0)
+            if gap_class: rec.hit('history:mix/glucose-into-gas-outlet')
+            def data_gap(e):
+                if not (gap_class and gas_enthalpy_data_gap(e)): return False
+                rec.hit('history:mix/glucose-into-gas-outlet/raised')
+                rec.refuse('history: glucose mixed into a gas-phase outlet stream - no gas enthalpy model in the data package (documented data gap; not judged, the history ends)')
+                return True
             if op == 'mix_and_split':
                 clause = 'mix_and_split'
                 try:
                     sep.mix_and_split(ins, top, bot, split)
                 except Exception as e:
                     if exc_key(e).endswith('@?'): raise
+                    if data_gap(e): return
                     rec.exception(f'{clause}/{etag}', e, what=f'mix_and_split (call {ci + 1} of a history on the same outlets: {otag}, {itag}) raised {type(e).__name__}: {str(e)[:120]}'); return
             else:
                 clause = 'moisture'
@@ -779,6 +855,7 @@ def run_history(case, rec, th, ids):
                 except Exception as e:
                     if exc_key(e).endswith('@?'): raise
                     if not isinstance(e, InfeasibleRegion):
+                        if data_gap(e): return
                         rec.exception(f'{clause}/{etag}', e, what=f'mix_and_split_with_moisture_content (call {ci + 1} of a history on the same outlets: {otag}, {itag}) raised {type(e).__name__}: {str(e)[:120]}'); return
                     # documented refusal (not enough moisture / moisture outside the liquid phase); whether it is warranted is judged by the single-call cases.
                     # The outlets are left in the state of the refusal: the history ends here
@@ -897,10 +974,17 @@ def run_history(case, rec, th, ids):
             fb = np.array(call['feed'], float)
             feed = mk(th, call['feed'], T=340.)
             tag = f'history/{otag}'
+            fcls = volatile_class(call['feed'])
+            if dew_bounded(call['spec']): rec.hit(f'vle:dew-flash/{fcls}'); rec.hit(f'history:vle/dew-flash/{fcls}')
             try:
                 sep.vle(feed, top, bot, **call['spec'])
             except Exception as e:
                 if exc_key(e).endswith('@?'): raise
+                if dew_bounded(call['spec']) and dew_solver_failure(e):
+                    # the recorded dew-solver mechanism: same key family as the single calls (input class of the feed; the outlets play no part before the flash returns)
+                    rec.check(False, 'vle-wrapper', f'raised/VP/{fcls}/dew-solver/history/{exc_key(e)}',
+                              f'separations.vle({call["spec"]}) on a {fcls} water / ethanol / methanol feed {call["feed"]} (call {ci + 1} of a history on the same outlets: {otag}) raised {type(e).__name__}: {str(e)[:120]}')
+                    return
                 rec.exception(f'vle-wrapper/{etag}', e, what=f'separations.vle({call["spec"]}) (call {ci + 1} of a history on the same outlets: {otag}) raised {type(e).__name__}: {str(e)[:120]}'); return
             balance(rec, 'vle-wrapper', tag, [fb], [arr(top), arr(bot)], f'separations.vle (call {ci + 1} of a history on the same outlets)')
             rec.check(not isms(top) and not isms(bot) and top.phase == 'g' and bot.phase == 'l' and top.T == bot.T and top.P == bot.P, 'vle-wrapper', f'routing/{tag}',
@@ -932,3 +1016,8 @@ def run(rec, rng, tier, shard, nshards):
         except Exception as e:
             rec.exception('harness', e, what=f'harness error: {type(e).__name__}: {e}')
         if i % 299 == 7: rec.sample(case)
+    # the data gap that is counted and not judged (glucose mixed into a gas-phase outlet stream) is rare because the library's retry in other phases usually returns
+    # (thorough seed 0: 3 raises in 15 679 calls of the class, 2e-4): far more of it in one shard is something else hiding behind the classification
+    g_ = rec.reach.get('history:mix/glucose-into-gas-outlet', 0); r_ = rec.reach.get('history:mix/glucose-into-gas-outlet/raised', 0)
+    if r_ >= 5: rec.check(r_ <= 0.003 * g_, 'mix_and_split', 'history/glucose-into-gas-outlet/data-gap-rate-exceeded',
+                          f'{r_} of {g_} mix_and_split / mix_and_split_with_moisture_content calls with glucose mixed into a gas-phase outlet stream raised with the gas-enthalpy TypeError on the chain (recorded: 2e-4 of such calls)')
